@@ -226,6 +226,29 @@ func TestC01(t *testing.T) {
 			if armedObj != 0 {
 				gc.Disarm(armedObj)
 			}
+			if !bad && mode == "Apply" {
+				// applying again - a second value of the same function literal, i.e. the same code with another
+				// captured state - makes that second value the replacement
+				st2 := &CbState{}
+				var rerr interface{}
+				func() { defer func() { rerr = recover() }(); c.InstallApply(b, st2) }()
+				if rerr != nil {
+					rep.Violate("C01/mock-rejected", fmt.Sprintf("%s: second Apply rejected: %v", c.Name, rerr), info)
+				} else {
+					for fi, form := range []string{"direct", "fvAfter", "fvBefore"} {
+						st.Reset()
+						st2.Reset()
+						o := runCase(c, form, fi)
+						rep.Eval(1)
+						h1, h2 := atomic.LoadInt64(&st.Hits), atomic.LoadInt64(&st2.Hits)
+						if o.pan != nil || h1 != 0 || h2 != 1 || st2.Last != o.args || c.OrigHits() != hits0 {
+							rep.Violate("C01/reapplied-replacement-not-run", fmt.Sprintf("%s via %s after a second Apply with another value of the same callback literal: panic %v, first callback ran %d times, second %d times (want 0 and 1)", c.Name, form, o.pan, h1, h2), info)
+							break
+						}
+					}
+					rep.Stat("reapplies_checked", 1)
+				}
+			}
 			b.Reset()
 			// after reset the original runs again
 			o := runCase(c, "direct", 0)
